@@ -7,23 +7,9 @@ import (
 // TS 24.501 9.11.3.35, TS 24.008 10.5.3.5a
 func FullNetworkNameToNas(name string) (fullNetworkName nasType.FullNameForNetwork) {
 	asciiArray := []byte(name)
-	numOfSpareBits := 8 - ((7 * len(asciiArray)) % 8)
+	numOfSpareBits := (8 - ((7 * len(asciiArray)) % 8)) % 8
 
-	var buf []uint8
-	idx := uint8(7)
-	for i, char := range asciiArray {
-		if i == 0 {
-			buf = append(buf, char)
-		} else {
-			buf[i-1] = (buf[i-1] & nasType.GetBitMask(idx+1, 0)) + char<<idx
-			buf = append(buf, char>>(8-idx))
-			idx--
-			// if idx overflow, it will round to max(uint8) == 255 == ^uint8(0)
-			if idx == ^uint8(0) {
-				idx = 7
-			}
-		}
-	}
+	buf := packGSM7bit(asciiArray)
 
 	fullNetworkName.SetLen(uint8(1 + len(buf)))
 	fullNetworkName.SetCodingScheme(0)
@@ -36,23 +22,9 @@ func FullNetworkNameToNas(name string) (fullNetworkName nasType.FullNameForNetwo
 
 func ShortNetworkNameToNas(name string) (shortNetworkName nasType.ShortNameForNetwork) {
 	asciiArray := []byte(name)
-	numOfSpareBits := 8 - ((7 * len(asciiArray)) % 8)
+	numOfSpareBits := (8 - ((7 * len(asciiArray)) % 8)) % 8
 
-	var buf []uint8
-	idx := uint8(7)
-	for i, char := range asciiArray {
-		if i == 0 {
-			buf = append(buf, char)
-		} else {
-			buf[i-1] = (buf[i-1] & nasType.GetBitMask(idx+1, 0)) + char<<idx
-			buf = append(buf, char>>(8-idx))
-			idx--
-			// if idx overflow, it will round to max(uint8) == 255 == ^uint8(0)
-			if idx == ^uint8(0) {
-				idx = 7
-			}
-		}
-	}
+	buf := packGSM7bit(asciiArray)
 
 	shortNetworkName.SetLen(uint8(1 + len(buf)))
 	shortNetworkName.SetCodingScheme(0)
@@ -61,4 +33,19 @@ func ShortNetworkNameToNas(name string) (shortNetworkName nasType.ShortNameForNe
 	shortNetworkName.SetNumberOfSpareBitsInLastOctet(uint8(numOfSpareBits))
 	shortNetworkName.SetTextString(buf)
 	return
+}
+
+// packGSM7bit packs 7-bit characters as in TS 23.038 6.1.2.1.1: septet k occupies bits 7k..7k+6 of the
+// octet string (least significant bit first), so 8 characters take 7 octets.
+func packGSM7bit(chars []byte) []uint8 {
+	buf := make([]uint8, (7*len(chars)+7)/8)
+	for k, char := range chars {
+		bit := 7 * k
+		septet := uint16(char&0x7f) << uint(bit%8)
+		buf[bit/8] |= uint8(septet)
+		if bit%8 > 1 {
+			buf[bit/8+1] |= uint8(septet >> 8)
+		}
+	}
+	return buf
 }
